@@ -4,6 +4,7 @@ CONSTANTS Cbs = {1,2,3}
   SlotSize = 2
   Gap = 100
   Sigs = {"i","d"}
+  Cap = 2
   Variant = "faithful"
 VIEW View
 PROPERTY ISpec
@@ -12,5 +13,5 @@ INVARIANT DistinctLive
 INVARIANT FreeDisjointLive
 INVARIANT FreeNoDup
 INVARIANT BoundOwn
-INVARIANT InsideBlocks
+INVARIANT InsideMapping
 CHECK_DEADLOCK FALSE
